@@ -21,7 +21,8 @@ LEVEL_TEXT = ('Proof (reachability conditions of the expect sites, totality) + s
 LEVEL_NOTE = 'Partial with respect to the runtime (see assumptions). Trusted: Lean kernel; the inventory script; the reviewed classification of the sites that are neither proved nor runtime; the fuzz streams.'
 TECHNIQUE = 'Lean 4 proofs that the expect() preconditions always hold + regenerated panic-site inventory vs reviewed classification + catch_unwind / exit-status fuzzing'
 
-ADV = ['', ' ', '"', "'", '\\', '\\x00', '\\x', '\\u12', '%', '%%', '/', '//', '..', '../..', '-', '--', ':', '::', 'a:b:c:d:e', ',', ',,', 'type=', 'type=bind', 'type=bind,', 'type==',
+ADV = ['\\ud800', '\\udfff x', 'mood=\\ud83d\\ude00', '\\U0000d800', '\\U00110000', '\\Uffffffff', '\\u0000', '\\x00', '\\0', '\\777', '\\400', '"\\ud800"',
+       '', ' ', '"', "'", '\\', '\\x00', '\\x', '\\u12', '%', '%%', '/', '//', '..', '../..', '-', '--', ':', '::', 'a:b:c:d:e', ',', ',,', 'type=', 'type=bind', 'type=bind,', 'type==',
        'source=', '=', '==', 'a=', '=b', '@', '@@', '.', 'x.volume', '.volume', 'x.network:', ':x', '\x7f', 'é', ' ', '𝄞', 'a' * 300, '0', '-1', '99999999999999999999', 'keep-id',
        'keep-id:uid=', 'auto', 'manual', 'true', 'yes', 'image', 'notify', 'oneshot', 'healthy', 'yaml', 'unit', 'file', '-/dev/null', '-', '"unterminated', "'unterminated", 'a\\', '1-2/tcp',
        'host', 'none', 'x.container', 'x.pod', 'x.image', 'x.build', '.pod', 'type=image,src=x.image', 'type=volume,source=,dst=/x', 'type=bind,"a,b"', 'type=glob,src=/a*', 'a b', '\t']
